@@ -974,7 +974,7 @@ impl<'a> Gen<'a> {
             }
             8 => {
                 self.stats.labels += 1;
-                let name = self.binder(env, &[], true);
+                let name = self.label_name(env);
                 env.push(Bind { name: name.clone(), cns: true, ty: ty.clone() });
                 let body = self.gen_tm_rec(env, ty, size - 1, pure, in_rec);
                 env.pop();
@@ -1043,7 +1043,7 @@ impl<'a> Gen<'a> {
         let (dname, targs) = self.selfish_dtor(ty).expect("checked by the caller");
         self.stats.labels += 1;
         self.stats.gotos += 1;
-        let k = self.binder(env, &[], true);
+        let k = self.label_name(env);
         env.push(Bind { name: k.clone(), cns: true, ty: ty.clone() });
         let s = self.split(size.saturating_sub(1), 2);
         let c1 = self.leaf(env, &Ty::I64, pure);
@@ -1057,6 +1057,19 @@ impl<'a> Gen<'a> {
             chain = Tm::Dtor { scrut: Box::new(chain), name: dname.clone(), tyargs: targs.clone(), args: vec![] };
         }
         Tm::Label { name: k, body: Box::new(chain) }
+    }
+
+    /// the name of a label: in control-heavy programs with adversarial identifiers often one of
+    /// the first covariable names the translation generates itself, so that sibling labels share
+    /// a name that fresh-name generation will want to hand out
+    fn label_name(&mut self, env: &[Bind]) -> String {
+        if self.cfg.adversarial && self.control_heavy && self.c.prob(100) {
+            let n = ["a0", "a1", "a2"][self.c.choose(3)].to_string();
+            if Some(&n) != self.fuel_name().as_ref() {
+                return n;
+            }
+        }
+        self.binder(env, &[], true)
     }
 
     /// an argument-free destructor of the codata type `ty` that returns `ty` itself
